@@ -315,6 +315,8 @@ impl<'a> Storage for WalStoragePerTable<'a> {
     }
 
     fn page_mut(&mut self, page_no: u32) -> Result<&mut [u8]> {
+        #[cfg(kahflane_turdb_verif)]
+        crate::verif_hooks::io_event("wal_mark_dirty", "", self.table_id as u64, page_no as u64);
         self.dirty_tracker.mark_dirty(self.table_id, page_no);
         self.storage.page_mut(page_no)
     }
